@@ -61,6 +61,28 @@ REGISTRY = {
             "assumptions": ["exception classes of the content decoders (_unpack_ldap_message_content and below) are assumed to be within {ValueError, NotImplementedError, NotEnougData, RecursionError}: "
                             "trusted contract, exercised by the bounded corruption sweep; TypeError/AttributeError excluded under 'arguments conform to their annotations'"]},
     "C06": {"jobs": RECEIVE + FRAME_READERS + [LEMMAS_FRAMING[2], LEMMAS_FRAMING[0]], "native": "native_receive.py"},
+    "C13": {"jobs": [], "native": "native_filter_text.py", "level": "other",
+            "explanation": "Contract from_string(str(f)) == f on the real functions, evaluated: the per-octet escape map over all 256 octets is exhaustive (complete for the per-octet map); "
+                           "tree round trips are bounded-exhaustive (stated bound). No deductive obligation: the parser is str.split / re.sub code outside the prover's reach (DESIGN.md 5, C13)."},
+    "C14": {"jobs": [], "native": "native_filter_text.py", "level": "other",
+            "explanation": "Contract from_string(s) == tree denoted by the RFC 4515 derivation of s, evaluated on bounded-exhaustive grammar derivations generated together with their trees; "
+                           "attribute-description language inclusion RFC 4512 in L(_ATTRIBUTE_PATTERN) is exact (automata). The encoding half of the statement is C03's."},
+    "C15": {"jobs": [], "native": "native_filter_text.py", "level": "other",
+            "explanation": "Exact: L(_ATTRIBUTE_PATTERN) versus the RFC 4512 attribute description language over the full Unicode alphabet (automata difference). "
+                           "Bounded-exhaustive: every string up to the stated length over a class-representative alphabet and every single-character edit of grammar sentences: "
+                           "only FilterSyntaxError, span inside the input, accepted results RFC-valid and re-parsing to themselves."},
+    "C16": {"jobs": [], "native": "native_schema_text.py", "level": "other",
+            "explanation": "Contract T.from_string(str(d)) == d on the real classes, evaluated over a stated bounded set of definitions (every field on/off, list lengths 0-3, description and "
+                           "extension strings over the characters the encoder, the un-escaper and the grammar distinguish). No deductive obligation: regex + str.split code is outside the prover's reach."},
+    "C17": {"jobs": [], "native": "native_schema_text.py", "level": "other",
+            "explanation": "Exact: L(RFC 4512 ABNF) is contained in the prefix language of each compiled description regex (automata inclusion over the full alphabet), for the three grammars incl. the quoted SYNTAX variant. "
+                           "Bounded: field extraction against grammar sentences generated with their denoted values and spacing choices; totality (only ValueError) over short strings and single-character edits."},
+    "C18": {"jobs": [], "native": "native_c18.py", "level": "other",
+            "explanation": "Decision procedure per compiled pattern: no exponential ambiguity in the Glushkov automaton built from this interpreter's sre parse tree (exact, full Unicode alphabet); "
+                           "refutations are replayed by timing the real pattern under a hard timeout. Hand-written scanners: bounded growth probe on adversarial families (labelled bounded); the decreases "
+                           "clauses of the asn1 loops are discharged under C07.",
+            "trusted_base": ["CPython sre is a backtracking matcher whose cost on a pattern without exponential ambiguity is polynomial in the subject length (Weber-Seidl / Weideman et al.)",
+                             "sre opcodes modelled: LITERAL NOT_LITERAL ANY IN BRANCH SUBPATTERN MAX/MIN_REPEAT AT; anything else is reported undecided"]},
     "C08": {"jobs": SEND_CORE + SERVER_API + CLIENT_API + INCOMING + RECEIVE[:4], "native": "native_session.py"},
     "C09": {"jobs": [j(f"{S}:LDAPClient._send"), inh("_send", "LDAPClient")] + CLIENT_API + [INCOMING[0]], "native": "native_session.py"},
     "C10": {"jobs": SEND_CORE + SERVER_API + CLIENT_API, "native": "native_session.py"},
